@@ -82,6 +82,21 @@ def run(ctx):
         inp = rnd.choice(INPUTS)
         if '(range .)' in e and inp in ('18446744073709551615', '1e300'): inp = '7'        # collection sizes <= 10^4 (resource exhaustion is out of scope)
         cases.append(mkcase('E%d' % i, cfg, inp.encode('utf8')))
+    # non-finite numbers arise from finite literals through arithmetic; everything that consumes a number must cope with them
+    NONFIN = ['(- (* 1e308 10) (* 1e308 10))', '(% (* 1e308 10) 2)', '(/ 0 0)', '(* 1e308 10)', '(- 0 (* 1e308 10))', '(/ 1 0)']
+    CONS = ['(< %s 1)', '(<= 1 %s)', '(> %s %s)', '(= %s %s)', '(sort [%s, 1, %s, -1])', '(sort_unique [%s, %s])', '(sort_by [{"v": %s}, {"v": 1}, {"v": %s}] .v)', '(stringify %s)', '(round %s)', '(floor %s)',
+            '(take [1, 2] %s)', '(sub "abc" %s 2)', '(range %s)', '(get [1] %s)', '(+ %s 1)', '(abs %s)', '(max [%s, 1])', '(min [1, %s])', '(as_string %s)', '(group_by [%s, 1] (stringify .))', '("+" (stringify %s) "1")']
+    k = 0
+    for cns in CONS:
+        for x in NONFIN:
+            for y in NONFIN[:2]:
+                k += 1
+                cases.append(mkcase('E_n%d' % k, lib.new_cfg(select=[(cns.replace('%s', x, 1).replace('%s', y)) + '=x']), b'null'))
+    for x in NONFIN:
+        k += 1
+        cases.append(mkcase('E_n%d' % k, lib.new_cfg(select=['%s=v' % x], sort=[x, '(? (= .a 1) %s 1)' % x], unique=True), b'{"a":1} {"a":2} {"a":1} {"a":3}'))
+        k += 1
+        cases.append(mkcase('E_n%d' % k, lib.new_cfg(sort=['(? (= .a 1) %s .a)' % x], group='(stringify %s)' % x), b'{"a":1} {"a":2} {"a":1} {"a":3}'))
     # regular expressions whose groups may not take part in a match (alternation, optional and repeated groups), every group index
     RX = ['(a)|(b)', 'a(b)?c', '(x)?(y)?z', '(?:a)(b)*', '(a)(?P<n>b)?', '((a)|(b))+', '(a*)(b*)', '^(?:(é)|(e))$', '(', 'a{2,1}', '']
     SUBJ = ['ac', 'abc', 'a', 'b', 'z', 'yz', 'é', 'e', '', 'bbb']
